@@ -36,6 +36,10 @@ CHECKS = {
  "C15": dict(cat="model_checking", ref="6.C15", engine="function-reference", tech="TLA+ encoder of the GCC/Clang depfile dialect and reference decoder (Depfile.tla); TLC checks Decode(Encode(x)) = x for every bounded rule list x layout x dialect inside the injective fragment; every such text replayed on DepfileParser::Parse with the expected reading",
              text="One TLC state per (rule list, layout, dialect); the round-trip law holds on the reference inside the fragment where the dialect is injective (collisions are computed over the exported families and must lie outside it); each fragment text is an implementation test. The backslash-before-'$' defect of the tree is a listed known finding.",
              note="Trusted: TLC; Depfile.tla's Encode as what GCC (>= 10 and < 10) and Clang write, Decode as the documented reading. Bounded: names <= 3 characters over an 8-character alphabet, <= 3 dependencies exhaustively, 24-name lists sampled."),
+ "C06": dict(cat="model_checking", ref="6.C06", tech="pool assignments x -j x jobserver sizes x failures x interrupts generated from Families.tla; all completion orders on the real Plan/Builder/pools and the real POSIX jobserver client on a real FIFO; TLC trace validation against the limit / no-idle / token monitors of RefTrace.tla",
+             text="Invariants at every Start (running <= -j, per-pool <= depth, console 1, running <= tokens held, started once), at every Wait (no startable command while a slot is free and budget lasts), at Exit on every path (tokens in the FIFO = initial, never 'stuck'); termination by a watchdog on each invocation."),
+ "C07": dict(cat="fault_enumeration", ref="6.C07", tech="named crash points (VERIF_CRASH_POINT hooks) x passage number and interrupts at every wait, enumerated from Families.tla; each invocation of the real classes is a forked process that dies at the point; recovery builds validated by TLC against NinjaRef!CleanContent and the interrupt clauses",
+             text="Fault enumeration over the crash points between every two persistence steps of FinishCommand/RecordCommand/RecordDeps and over interrupts, with orphaned commands completing or not; the recovery build must succeed and leave the needed closure equal to a clean build; after an interrupt: status 130, lock file gone, modified outputs (all outputs of depfile commands) gone."),
 }
 
 NOT_YET = "check not built yet (work in progress; see DESIGN.md section 9)"
